@@ -44,7 +44,7 @@ pub fn contained(k: usize, c: &Value) -> Option<String> {
     let pos = c["pos"].as_str().unwrap();
     // also the whole constraint may be a contained subtype, INTEGER (Ti<k>): single-operand cases; and the contained type may be
     // given as a constrained *reference* to another INTEGER type (every second one): Ti<k> ::= Tb<k> (lo..hi)
-    (c["ty"] == "INTEGER" && matches!(pos, "assignment" | "component" | "refcomp") && k % 3 == 2 && closed).then(|| {
+    (c["ty"] == "INTEGER" && matches!(pos, "assignment" | "component" | "refcomp" | "valref") && k % 3 == 2 && closed).then(|| {
         if (k / 3) % 2 == 1 {
             format!("Tb{k} ::= INTEGER\nTi{k} ::= Tb{k} ({})", operand(o, Ends::Literal))
         } else {
